@@ -331,6 +331,11 @@ pub fn conclude(id: &str, tier: &str, seed: u64, level: &str, agg: &Agg, rules: 
         println!("INCONCLUSIVE property={id} observed nothing for rules {missing:?}");
         exit = 2;
     }
+    let capped: u64 = agg.inconclusive.iter().filter(|(k, _)| k.starts_with("step cap reached")).map(|(_, v)| *v).sum();
+    if exit == 0 && capped * 200 > agg.runs.max(1) {
+        println!("INCONCLUSIVE property={id} {capped} of {} runs hit the step cap before the environment was drained", agg.runs);
+        exit = 2;
+    }
     if exit == 0 && harness_errs > 0 {
         println!("INCONCLUSIVE property={id} {harness_errs} runs failed inside the harness");
         exit = 2;
